@@ -3,7 +3,8 @@
 // functions named in the spec (derived by the check from the README, not from genbbsub.cc) directly.
 // usage: c05_dispatch <specfile> <seed> <n_events>
 //   B <name> <fn1> [<fn2> ...]                 background: parent scheme, then daughters (unless an alpha was emitted)
-//   D <iso> <level> <mode> <lowfn|-> [<fn> ..] double beta: bb + <daughter>low(levelE) [+ low(0) and chain for the 4 chain entries]
+//   D <iso> <level> <mode> <levelE keV> <lowfn|-> [<fn> ..] double beta: bb + <daughter>low(levelE) [+ low(0) and chain for the 4 chain entries]
+//     (levelE comes from the published tables, not from genbbsub)
 #include <cstdlib>
 #include <fstream>
 #include <functional>
@@ -104,9 +105,9 @@ int main(int argc, char ** argv)
       emit_mismatches(OUT, "mismatches", mm);
       fprintf(OUT, "}\n");
     } else {
-      int level, mode;
+      int level, mode, levelE;
       std::string low;
-      ls >> level >> mode >> low;
+      ls >> level >> mode >> levelE >> low;
       std::vector<std::string> chain;
       std::string f;
       while (ls >> f) chain.push_back(f);
@@ -121,6 +122,12 @@ int main(int argc, char ** argv)
         mm[lab + "|refused"].detail = "genbbsub refuses a configuration the published tables allow";
         mm[lab + "|refused"].count = 1;
         skip = true;
+      }
+      if (!skip && (pars.levelE != levelE || std::fabs(pars.Edlevel * 1000.0 - levelE) > 1e-6)) {
+        std::string k = lab + "|level-energy";
+        mm[k].key = k;
+        mm[k].detail = fmt("genbbsub selects a daughter level at %d keV (Edlevel %.6f MeV); the published level %d of %s is at %d keV", pars.levelE, pars.Edlevel, level, name.c_str(), levelE);
+        mm[k].count = 1;
       }
       if (low != "-" && !reg.low.count(low)) {
         mm[lab + "|no-deexcitation-function"].key = lab + "|no-deexcitation-function";
@@ -140,7 +147,7 @@ int main(int argc, char ** argv)
         tape.rewind();
         bxdecay0::bbpars p2 = pars; // same initialised state
         bxdecay0::decay0_bb(tape, b, &p2);
-        if (low != "-") reg.low[low](tape, b, chain.empty() ? pars.levelE : 0);
+        if (low != "-") reg.low[low](tape, b, chain.empty() ? levelE : 0);
         for (auto & fn : chain) {
           size_t n0 = b.get_particles().size();
           double td1 = 0;
